@@ -263,6 +263,13 @@ End Spec.
 
 Definition AnyFloat : N -> Prop := fun _ => True.
 Definition FloatInRange : N -> Prop := fun b => i64_lo <= f64_floor b <= i64_hi.
+(** The code's reading of "a float that is a time", as regenerated from the source: every
+    float while [normalize_json_value] casts without a range check
+    ([time_float_range_checked = false], the pinned tree), the in-range ones once it checks. *)
+Definition CodeFloat : N -> Prop := fun b => time_float_range_checked = true -> FloatInRange b.
+
+Lemma in_i64_spec : forall z, in_i64 z = true <-> i64_lo <= z <= i64_hi.
+Proof. intro z. unfold in_i64. lia. Qed.
 
 (** well-formedness: the maps are maps *)
 Definition wf_reg (reg : registry) : Prop :=
@@ -278,21 +285,24 @@ Lemma tav_codes :
 Proof. repeat split; reflexivity. Qed.
 
 Lemma time_of_value_some : forall v,
-  (is_string v || is_number v = true /\ time_of_value v <> None) <-> TimeValue AnyFloat v.
+  (is_string v || is_number v = true /\ time_of_value v <> None) <-> TimeValue CodeFloat v.
 Proof.
   intro v. split.
   - intros [Hs Ht]. destruct v as [| |n|s| |]; cbn in Hs; try discriminate.
     + destruct n as [n|z|b]; cbn [time_of_value] in Ht.
       * apply TV_pos. apply normalize_some_iff in Ht. lia.
       * apply TV_neg. apply normalize_some_iff in Ht. exact Ht.
-      * apply TV_float. exact I.
+      * apply TV_float. intro Hf. rewrite Hf in Ht. cbn [andb] in Ht.
+        apply in_i64_spec. destruct (in_i64 (f64_floor b)); [reflexivity|]. exfalso. apply Ht. reflexivity.
     + cbn [time_of_value] in Ht. destruct (parse_str_to_epoch_seconds (utrim s)) as [t|] eqn:E; [|congruence].
       apply TV_str with t. exact E.
-  - intro H. inversion H; subst; cbn [is_string is_number orb time_of_value]; split; try reflexivity.
+  - intro H. inversion H as [s t E| n Hn| z Hz| b Hb]; subst; cbn [is_string is_number orb time_of_value]; split; try reflexivity.
     + congruence.
     + apply normalize_some_iff. lia.
     + apply normalize_some_iff. assumption.
-    + discriminate.
+    + destruct time_float_range_checked eqn:Hf; cbn [andb]; [|discriminate].
+      assert (R : in_i64 (f64_floor b) = true) by (apply in_i64_spec; apply Hb; exact Hf).
+      rewrite R. cbn [negb]. discriminate.
 Qed.
 
 Lemma prim_allows_nontime : forall p v, time_prim p = false ->
@@ -336,15 +346,16 @@ Definition value_accepted (ft : ftype) (v : json) : Prop :=
   type_allows_value ft v = true /\ (needs_time ft v = true -> time_of_value v <> None).
 
 Lemma prim_accepted : forall p v,
-  (prim_allows p v = true /\ (time_prim p = true -> time_of_value v <> None)) <-> HasPrim AnyFloat p v.
+  (prim_allows p v = true /\ (time_prim p = true -> time_of_value v <> None)) <-> HasPrim CodeFloat p v.
 Proof.
   intros p v. destruct (time_prim p) eqn:Hp.
-  - rewrite prim_allows_time by exact Hp. rewrite (HasPrim_time AnyFloat p v Hp).
+  - rewrite prim_allows_time by exact Hp. rewrite (HasPrim_time CodeFloat p v Hp).
     rewrite <- time_of_value_some. tauto.
-  - rewrite (prim_allows_nontime p v Hp). split; [tauto|]. intro H. split; [exact H|discriminate].
+  - rewrite (HasPrim_nontime_any CodeFloat p v Hp), (prim_allows_nontime p v Hp).
+    split; [tauto|]. intro H. split; [exact H|discriminate].
 Qed.
 
-Lemma value_accepted_spec : forall ft v, value_accepted ft v <-> HasType AnyFloat ft v.
+Lemma value_accepted_spec : forall ft v, value_accepted ft v <-> HasType CodeFloat ft v.
 Proof.
   intros ft v. unfold value_accepted. destruct ft as [p|p|vs]; cbn [type_allows_value needs_time].
   - rewrite prim_accepted. split; [intro H; constructor; exact H|intro H; inversion H; assumption].
@@ -397,7 +408,7 @@ Lemma payload_ok_spec : forall sc obj,
   keys_unique sc = true -> keys_unique obj = true ->
   ((check_fields obj sc = true /\ no_extra_keys obj sc = true /\ normalize_obj sc obj <> None)
    <->
-   ((forall k v, In (k, v) obj -> exists ft, In (k, ft) sc /\ HasType AnyFloat ft v) /\
+   ((forall k v, In (k, v) obj -> exists ft, In (k, ft) sc /\ HasType CodeFloat ft v) /\
     (forall k ft, In (k, ft) sc -> (exists v, In (k, v) obj) \/ Optional ft))).
 Proof.
   intros sc obj Hsu Hou. unfold check_fields, no_extra_keys. rewrite !forallb_forall, normalize_obj_some.
@@ -435,7 +446,7 @@ Qed.
 
 Theorem store_ok_iff_conforms : forall reg cmd,
   wf_reg reg -> wf_payload (sc_payload cmd) ->
-  (store_ok reg cmd = true <-> Conforms AnyFloat reg cmd).
+  (store_ok reg cmd = true <-> Conforms CodeFloat reg cmd).
 Proof.
   intros reg cmd [Hru Hrs] Hwp. unfold store_ok, store_check, Conforms.
   destruct (is_blank (sc_type cmd)) eqn:Bt.
@@ -689,12 +700,12 @@ Proof.
 Qed.
 
 (** strengthening needs the float-time predicate only at floats in time-typed slots *)
-Lemma HasPrim_strengthen : forall (FT : N -> Prop) p v,
-  HasPrim AnyFloat p v ->
+Lemma HasPrim_strengthen : forall (F0 FT : N -> Prop) p v,
+  HasPrim F0 p v ->
   (forall b, v = JNum (Float b) -> time_prim p = true -> FT b) ->
   HasPrim FT p v.
 Proof.
-  intros FT p v H K.
+  intros F0 FT p v H K.
   inversion H as [| | | | | |v' Ht|v' Ht]; subst; try constructor; try assumption;
     (inversion Ht; subst; [eapply TV_str; eassumption|apply TV_pos; assumption|apply TV_neg; assumption|
                            apply TV_float; apply K; reflexivity]).
@@ -702,16 +713,13 @@ Qed.
 
 Definition FloatTimeSaturates (reg : registry) (cmd : store_cmd) : Prop := known_float_time reg cmd = true.
 
-Lemma in_i64_spec : forall z, in_i64 z = true <-> i64_lo <= z <= i64_hi.
-Proof. intro z. unfold in_i64. lia. Qed.
-
 Theorem accept_iff_strict_outside_known : forall reg cmd,
   wf_reg reg -> wf_payload (sc_payload cmd) ->
   ~ FloatTimeSaturates reg cmd ->
   (store_ok reg cmd = true <-> Conforms FloatInRange reg cmd).
 Proof.
   intros reg cmd Hwr Hwp Hk. rewrite (store_ok_iff_conforms reg cmd Hwr Hwp). split.
-  2: { apply Conforms_mono. intros b _. exact I. }
+  2: { apply Conforms_mono. intros b Hb _. exact Hb. }
   intros (A & B & sc & obj & Hin & Hp & H1 & H2).
   split; [exact A|split; [exact B|]]. exists sc, obj. repeat split; try assumption.
   intros k v Hkv. destruct (H1 k v Hkv) as (ft & Hs & Ht). exists ft. split; [exact Hs|].
@@ -729,9 +737,9 @@ Proof.
     unfold FloatInRange. apply in_i64_spec.
     destruct Hft as [-> | ->]; rewrite Hp' in Hf; cbn in Hf; destruct (in_i64 (f64_floor b)); [reflexivity|discriminate|reflexivity|discriminate]. }
   inversion Ht; subst.
-  - apply HT_prim. apply HasPrim_strengthen; [assumption|]. intros b E Hp'. eapply K; eauto.
+  - apply HT_prim. eapply HasPrim_strengthen; [eassumption|]. intros b E Hp'. eapply K; eauto.
   - apply HT_opt_null.
-  - apply HT_opt_some. apply HasPrim_strengthen; [assumption|]. intros b E Hp'. eapply K; eauto.
+  - apply HT_opt_some. eapply HasPrim_strengthen; [eassumption|]. intros b E Hp'. eapply K; eauto.
   - apply HT_enum. assumption.
 Qed.
 
@@ -807,7 +815,7 @@ Definition PlusExponent (t : store_text) : Prop := tx_plus_exp t = true.
 Theorem text_accept_iff_conforms_outside_known : forall reg t,
   wf_reg reg -> wf_payload (sc_payload (tx_cmd t)) ->
   ~ BraceInString t -> ~ PlusExponent t ->
-  (store_text_ok reg t = true <-> Conforms AnyFloat reg (tx_cmd t)).
+  (store_text_ok reg t = true <-> Conforms CodeFloat reg (tx_cmd t)).
 Proof.
   intros reg t Hwr Hwp Hb Hpl. unfold BraceInString, PlusExponent in *.
   apply not_true_is_false in Hb. apply not_true_is_false in Hpl.
